@@ -274,6 +274,9 @@ func VReplayStore(task engine.SeqTask) (res engine.SeqResult) {
 }
 
 // applyWriteT applies a write and returns the commit time the implementation stamped.
+// ApplyWriteT is ApplyWrite that also returns the recorded (commit) time of the write.
+func (h *VHist) ApplyWriteT(op VOp) (int64, error) { return h.applyWriteT(op) }
+
 func (h *VHist) applyWriteT(op VOp) (int64, error) {
 	switch op.K {
 	case "batch":
